@@ -24,7 +24,7 @@ func (C09) Plan(tier string) core.Plan {
 
 func (C09) Info() core.Info {
 	return core.Info{
-		Rule: "histories of 2-6 operations mixing Redefine (random input/output filters, random subsets of the options) and Call on the same *Func objects and the same option values: targets and converters in every form incl. run-once, built and generator-offered converters. Each history is executed, then its twin (the Redefine operations deleted) on fresh parties; both reseed the schedule PRNG per operation with the operation's stable id, so a Call sees the same stream of iteration orders in both. Oracle: no party executes while a Redefine is being computed (generators and filters may run); every Call has the same outcome kind and the same id-independent provenance of the values the target received as in the twin; per-party execution counts agree. Non-trivial: a Redefine precedes a Call and >=1 converter exists; distinct = distinct (world shape, event-log hash)",
+		Rule:        "histories of 2-6 operations mixing Redefine (random input/output filters, random subsets of the options) and Call on the same *Func objects and the same option values: targets and converters in every form incl. run-once, built and generator-offered converters. Each history is executed, then its twin (the Redefine operations deleted) on fresh parties; both reseed the schedule PRNG per operation with the operation's stable id, so a Call sees the same stream of iteration orders in both. Oracle: no party executes while a Redefine is being computed (generators and filters may run); every Call has the same outcome kind and the same id-independent provenance of the values the target received as in the twin; per-party execution counts agree. Non-trivial: a Redefine precedes a Call and >=1 converter exists; distinct = distinct (world shape, event-log hash)",
 		Assumptions: []string{"calls of the redefined functions themselves are excluded here (they are real uses of the target; C08 covers them)"},
 		Probes:      []string{"c09_redefine_ops", "c09_redefine_ok", "c09_calls_compared", "c09_once_worlds", "c09_built_worlds", "c09_call_after_redefine_used_converter", "s1_nonidentity_perms"},
 		Real:        realComponents,
